@@ -67,6 +67,14 @@ class StrE(str, enum.Enum):
     x = "x\\y'z"
 
 
+class StrPlain(str, enum.Enum):
+    member = "plainvalue"
+
+
+class IntE(enum.Enum):
+    seven = 7
+
+
 def scalar_cases(rnd):
     """(label, value, alternatives builder) for the non-string kinds; the decode of numerics is done here in
     Python on the token text found by the lexer, TLC checks the token structure"""
@@ -75,7 +83,7 @@ def scalar_cases(rnd):
         ("negfloat", -2.25), ("decimal", decimal.Decimal("10.50")), ("bool", True), ("bool", False), ("none", None),
         ("date", datetime.date(2020, 2, 29)), ("time", datetime.time(1, 2, 3)), ("datetime", datetime.datetime(2020, 1, 2, 3, 4, 5, 6)),
         ("datetimetz", datetime.datetime(2020, 1, 2, 3, 4, 5, tzinfo=datetime.timezone.utc)),
-        ("uuid", uuid.UUID("12345678-1234-5678-1234-567812345678")), ("enum", Color.red), ("strenum", StrE.x),
+        ("uuid", uuid.UUID("12345678-1234-5678-1234-567812345678")), ("enum", Color.red), ("strenum", StrE.x), ("strenum", StrPlain.member), ("intenum", IntE.seven),
         ("json", {"a": [1, "q'r", 'd"e'], "b\\": None}), ("json", {"k": "plain", "n": [1, 2.5, True, None]}),
     ]
 
@@ -108,6 +116,8 @@ def expected_alts(kind, v, d, actual_toks=None):
 
 def numeric_alt(v, span):
     """span: python-lexed tokens that replaced the marker; returns the alternative TLC must see"""
+    if isinstance(v, enum.Enum):
+        v = v.value
     neg = v < 0
     want = ([("punct", "-")] if neg else []) + [("num", repr(abs(v)) if not isinstance(v, decimal.Decimal) else str(abs(v)))]
     toks = [(t["t"], t["v"]) for t in span]
@@ -236,7 +246,7 @@ def replay(path: str) -> int:
     f = positions()[ex["position"]]
     Q = core.query_classes()[ex["dialect"]]
     try:
-        v = eval(ex["value"], {"datetime": datetime, "decimal": decimal, "Decimal": decimal.Decimal, "uuid": uuid, "UUID": uuid.UUID, "Color": Color, "StrE": StrE})
+        v = eval(ex["value"], {"datetime": datetime, "decimal": decimal, "Decimal": decimal.Decimal, "uuid": uuid, "UUID": uuid.UUID, "Color": Color, "StrE": StrE, "StrPlain": StrPlain, "IntE": IntE})
         print("now renders:", f(Q, v))
     except Exception as e:  # noqa
         print("cannot rebuild value:", e)
